@@ -17,6 +17,7 @@ RULE = ('case = (MAX_QUEUE_SIZE, flow control, watermark, batch size, dynamic ro
         '30-200 for 1-3 destinations; non-trivial = sequence with >=1 connection event and >=2 arrivals; distinct = sequences')
 RULE_MORE = (" Variants also cover MAX_QUEUE_SIZE_HARD_PCT, USE_RATIO_RESET with statistics ticks (self-metrics injected every other tick), name caches, this daemon's PICKLE_RECEIVER_MAX_LENGTH, series under CARBON_METRIC_PREFIX; an orderly stop may not write after asking the transport to close; every arrival is compared with what the live router names.")
 RULE_MORE = RULE_MORE + " Rounds 10-11: infinities and fractions among the relayed values; anything an event or a timer-driven call raises out of carbon is a violation; the Deferred of the orderly stop is watched (no destination connected since the stop began may have anything queued when it fires); carbon's own closes may take effect a few events later."
+RULE_MORE = RULE_MORE + ' Round 12: deep backlogs sent in small messages with TIME_TO_DEFER_SENDING at its default and at 0.'
 RULE = RULE + RULE_MORE
 EXHAUSTIVE = {'quick': True, 'thorough': True}
 EXHAUSTIVE_OVER = 'all applicable event sequences up to length L (quick L=4, thorough L=5) after each listed prefix, one destination'
